@@ -187,7 +187,11 @@ def u_atomring(I):
     ctx.instantiate([k, z3.Int('j_rings')])
     # which kind of path is this?  decided inside an arbitrary iteration (witness ring) or after exhausting all rings
     j = z3.Int('j_rings')
-    found_here = good(j) if ctx.counters.get('j_rings') is not None else z3.BoolVal(False)
+    # "some ring through the atom has a suitable size": an existential, proved from a witness term -- the index of the iteration in
+    # which the real loop decided, or a witness ring of one of RDKit's ring observers (MinAtomRingSize, IsAtomInRingOfSize) if the code
+    # used those; the obligation is about the answer, not about how the code found it
+    cands = ([j] if ctx.counters.get('j_rings') is not None else []) + chem.witness_terms(ctx.pc)
+    found_here = z3.Or([z3.And(0 <= c, c < NRings(mid), good(c)) for c in cands]) if cands else z3.BoolVal(False)
     none_exists = z3.Implies(z3.And(0 <= k, k < NRings(mid)), z3.Not(good(k)))
     if out.kind == 'return':
         if negate:
